@@ -45,6 +45,20 @@ def directed():
                             {"path": "common/IBase.idl", "includes": [], "decls": common},
                             {"path": "vendor/IBase.idl", "includes": [], "decls": vendor}], "main": "main.idl", "idirs": []}
             out.append((fs, {"rule": "dup_toplevel_type" if tag != "const" else "dup_toplevel_const", "where": "inc", "directed": "same_named_files_" + tag}))
+    # misalignment that comes from a member which is itself a (valid) struct or an array
+    inner3 = ("struct", "ZIn3", [("uint32", 1, "a"), ("uint32", 1, "b"), ("uint32", 1, "c")])
+    inner6 = ("struct", "ZIn6", [("uint16", 1, "a"), ("uint16", 1, "b"), ("uint16", 1, "c")])
+    mid = ("struct", "ZMid", [("uint64", 1, "q"), ("ZIn3", 1, "i"), ("uint32", 1, "pad")])
+    user = lambda t: ("iface", "IUse", None, [M("f", [("in", t, None, "v")])])
+    for rule, decls in (("misaligned_size", [inner3, ("struct", "ZMis0", [("uint64", 1, "x"), ("ZIn3", 1, "i")])]),
+                        ("misaligned_member", [inner3, mid, ("struct", "ZMis0", [("uint32", 1, "k"), ("ZMid", 1, "m"), ("uint32", 1, "t")])]),
+                        ("misaligned_member", [("struct", "ZMis0", [("uint8", 3, "a"), ("uint32", 1, "b")])]),
+                        ("misaligned_member", [inner6, ("struct", "ZMis0", [("ZIn6", 1, "i"), ("uint32", 1, "x"), ("uint16", 1, "y")])]),
+                        ("misaligned_member", [inner3, ("struct", "ZMis0", [("ZIn3", 3, "i"), ("float64", 1, "x"), ("ZIn3", 1, "j")])]),
+                        ("misaligned_size", [inner3, ("struct", "ZMis0", [("float64", 1, "x"), ("ZIn3", 1, "i"), ("ZIn3", 2, "j")])])):
+        for with_user in (True, False):
+            fs = {"files": [{"path": "main.idl", "includes": [], "decls": decls + ([user("ZMis0")] if with_user else [])}], "main": "main.idl", "idirs": []}
+            out.append((fs, {"rule": rule, "where": "main", "in_cone": True, "struct": "ZMis0", "depth": 0, "directed": "nested_misalignment"}))
     return out
 
 
